@@ -6,12 +6,13 @@ AST only. Reads
   get_flight                   idx = bisect.bisect_left | bisect_right (<ids>, <the identifier parameter>)       -> which bisect
                                if idx >= len(<ids>) or <ids>[idx] != <identifier>: return None                   -> the two guards
                                return self[<indexes>[idx + s]]                                                   -> the offset s
-  _reindex                     sorted(enumerate(<ids>), key=lambda x: x[1]) (no reverse): the table is the (store index, identifier)
-                               pairs in file order, stably sorted by identifier; ids / indexes written from the same pairs
-  _create_merged_store_index   sorted(zip(<indexes>, <ids>), key=lambda x: x[1]); indexes shifted by `index_offset`, which grows
-                               by `len(ts)` after each input
+  _reindex / _create_merged_store_index   whether the tables are built in the form `sorted(<pairs>, key=lambda x: x[1])` — informational
+                               only: that the identifier column is sorted and the index column is the stable sort of the identifiers in
+                               store order is validated on real stores (c08.trace_get_flight), whichever way the source spells it
 
-Anything else raises `FlightLookupTranslationError` (a broken obligation for C08).
+The two guards of `get_flight` are read by their presence (a comparison of the position with the table length, a comparison of the
+entry at the position with the identifier), in whatever arrangement; which way they decide is validated on real lookups.
+A `get_flight` without a recognisable bisect / answer raises `FlightLookupTranslationError` (a broken obligation for C08).
 """
 from __future__ import annotations
 
@@ -67,16 +68,17 @@ def translate() -> tuple[str, dict]:
     P['left'] = ast.unparse(bis.value.func).split('.')[-1] == 'bisect_left'
     P['vars'] = (idp, ivar, ids)
     P['line'] = bis.lineno
+    # the two guards: the position is compared with the length of the table, and the entry at the position with the identifier —
+    # in whatever arrangement (one `if … or …: return None`, nested early returns, the positive test wrapping the answer); WHICH
+    # way they decide is validated against real lookups (c08.trace_get_flight), here only their presence is read
     guard_len = guard_eq = False
-    for st in ast.walk(gf):
-        if isinstance(st, ast.If) and st.lineno > bis.lineno and any(isinstance(x, ast.Return) and (x.value is None or ast.unparse(x.value) == 'None') for x in st.body):
-            parts = st.test.values if isinstance(st.test, ast.BoolOp) and isinstance(st.test.op, ast.Or) else [st.test]
-            for t in parts:
-                tx = ast.unparse(t).replace(' ', '')
-                if tx == f'{ivar}>=len({ids})'.replace(' ', ''):
-                    guard_len = True
-                if tx in (f'{ids}[{ivar}]!={idp}'.replace(' ', ''), f'{idp}!={ids}[{ivar}]'.replace(' ', '')):
-                    guard_eq = True
+    for x in ast.walk(gf):
+        if isinstance(x, ast.Compare) and getattr(x, 'lineno', 0) > bis.lineno and len(x.ops) == 1:
+            l, r = ast.unparse(x.left).replace(' ', ''), ast.unparse(x.comparators[0]).replace(' ', '')
+            if {l, r} == {ivar, f'len({ids})'} and isinstance(x.ops[0], (ast.GtE, ast.Lt, ast.Eq, ast.NotEq, ast.LtE, ast.Gt)):
+                guard_len = True
+            if {l, r} == {f'{ids}[{ivar}]', idp} and isinstance(x.ops[0], (ast.Eq, ast.NotEq)):
+                guard_eq = True
     P['guard_len'], P['guard_eq'] = guard_len, guard_eq
     ret = next((st for st in ast.walk(gf) if isinstance(st, ast.Return) and st.lineno > bis.lineno and st.value is not None
                 and isinstance(st.value, ast.Subscript) and ast.unparse(st.value.value) == 'self'), None)
@@ -90,33 +92,23 @@ def translate() -> tuple[str, dict]:
         P['shift'] = sub.right.value if isinstance(sub.op, ast.Add) else -sub.right.value
     else:
         raise FlightLookupTranslationError(f'get_flight: the position `{ast.unparse(sub)}` is not `{ivar} + s`')
-    # ---- _reindex
-    ri = methods.get('_reindex')
-    if ri is None:
-        raise FlightLookupTranslationError('TrajectoryStore._reindex not found')
-    srt = next((st for st in ast.walk(ri) if isinstance(st, ast.Assign) and isinstance(st.value, ast.Call)
-                and ast.unparse(st.value.func) == 'sorted'), None)
-    if srt is None:
-        raise FlightLookupTranslationError('_reindex: no sorted(…) table')
-    pairs = _sorted_by_second(srt.value, '_reindex')
-    if not (pairs.startswith('enumerate(') and ',' not in pairs):
-        raise FlightLookupTranslationError(f'_reindex: the pairs `{pairs}` are not enumerate(<ids in file order>)')
-    # ---- merged index
-    mi = methods.get('_create_merged_store_index')
-    if mi is None:
-        raise FlightLookupTranslationError('TrajectoryStore._create_merged_store_index not found')
-    srt2 = next((st for st in ast.walk(mi) if isinstance(st, ast.Assign) and isinstance(st.value, ast.Call)
-                 and ast.unparse(st.value.func) == 'sorted'), None)
-    if srt2 is None:
-        raise FlightLookupTranslationError('_create_merged_store_index: no sorted(…) table')
-    pairs2 = _sorted_by_second(srt2.value, '_create_merged_store_index')
-    if not pairs2.startswith('zip('):
-        raise FlightLookupTranslationError(f'_create_merged_store_index: the pairs `{pairs2}` are not zip(<indexes>, <ids>)')
-    offs = [st for st in ast.walk(mi) if isinstance(st, ast.AugAssign) and isinstance(st.op, ast.Add) and ast.unparse(st.value).startswith('len(')]
-    shifted = any(isinstance(b, ast.BinOp) and isinstance(b.op, ast.Add) and offs and ast.unparse(offs[0].target) in (ast.unparse(b.left), ast.unparse(b.right))
-                  for b in ast.walk(mi))
-    if not offs or not shifted:
-        raise FlightLookupTranslationError('_create_merged_store_index: the indexes of each input are not shifted by the running count of trajectories')
+    # ---- how the tables are built (informational: the tables themselves are validated against real stores, c08.trace_get_flight —
+    # identifier column sorted, index column the stable sort of the identifiers in store order)
+    def recognised(fn_name, pairs_prefix):
+        fn = methods.get(fn_name)
+        if fn is None:
+            return False
+        srt = next((st for st in ast.walk(fn) if isinstance(st, ast.Assign) and isinstance(st.value, ast.Call)
+                    and ast.unparse(st.value.func) == 'sorted'), None)
+        if srt is None:
+            return False
+        try:
+            return _sorted_by_second(srt.value, fn_name).startswith(pairs_prefix)
+        except FlightLookupTranslationError:
+            return False
+
+    P['table_recognised'] = recognised('_reindex', 'enumerate(')
+    P['merged_recognised'] = recognised('_create_merged_store_index', 'zip(')
     b = lambda x: 'true' if x else 'false'  # noqa: E731
     text = ('/- GENERATED by harness/common/fidprog.py from /repo\'s working tree (trajectories/store.py: get_flight, _reindex,\n'
             '   _create_merged_store_index) on every check run. Do not edit. -/\nnamespace Aeic.Gen\n\n'
@@ -124,9 +116,10 @@ def translate() -> tuple[str, dict]:
             f'/-- `idx >= len(ids)` gives `None` -/\ndef flGuardLen : Bool := {b(P["guard_len"])}\n'
             f'/-- `ids[idx] != id` gives `None` -/\ndef flGuardEq : Bool := {b(P["guard_eq"])}\n'
             f'/-- the trajectory index is read at position `idx + flShift` -/\ndef flShift : Int := {P["shift"]}\n'
-            '/-- the table of a store is `sorted(enumerate(ids in file order), key = identifier)` (stable) -/\ndef flTableSortedById : Bool := true\n'
-            '/-- the table of a merged store: the inputs\' tables with indexes shifted by the running trajectory count, sorted by identifier -/\n'
-            'def flMergedShiftedSorted : Bool := true\n\nend Aeic.Gen\n')
+            '/-- (informational) `_reindex` builds its table as `sorted(enumerate(ids in file order), key = identifier)` -/\n'
+            f'def flTableFormRecognised : Bool := {b(P["table_recognised"])}\n'
+            '/-- (informational) the merged table is built as `sorted(zip(shifted indexes, ids), key = identifier)` -/\n'
+            f'def flMergedFormRecognised : Bool := {b(P["merged_recognised"])}\n\nend Aeic.Gen\n')
     return text, P
 
 
